@@ -56,9 +56,77 @@ func stripConv(v ssa.Value) ssa.Value {
 }
 
 // ---- R1
+// wiringFunction: the function that combines source and base - fetchProfiles itself, or a
+// helper it hands both results of grabSourcesAndBases to - with the values that denote the
+// source and the base there.
+func (c *Check) wiringFunction(rule string) (*ssa.Function, ssa.Value, ssa.Value) {
+	f := c.anchorFn(rule, "internal/driver", "fetchProfiles")
+	if f == nil {
+		return nil, nil, nil
+	}
+	var grab *ssa.Call
+	hasCombine := false
+	for _, b := range f.Blocks {
+		for _, ins := range b.Instrs {
+			if calleeNamed(ins, "grabSourcesAndBases") {
+				grab, _ = ins.(*ssa.Call)
+			}
+			if calleeNamed(ins, "combineProfiles") {
+				hasCombine = true
+			}
+		}
+	}
+	if grab == nil || grab.Referrers() == nil {
+		return f, nil, nil
+	}
+	var src, base ssa.Value
+	for _, r := range *grab.Referrers() {
+		if e, ok := r.(*ssa.Extract); ok {
+			switch e.Index {
+			case 0:
+				src = e
+			case 1:
+				base = e
+			}
+		}
+	}
+	if hasCombine || src == nil || base == nil {
+		return f, src, base
+	}
+	for _, b := range f.Blocks {
+		for _, ins := range b.Instrs {
+			h := helperCallee(f, ins)
+			if h == nil {
+				continue
+			}
+			call := ins.(ssa.CallInstruction).Common()
+			si, bi := -1, -1
+			for i, a := range call.Args {
+				if a == src {
+					si = i
+				}
+				if a == base {
+					bi = i
+				}
+			}
+			if si < 0 || bi < 0 || si >= len(h.Params) || bi >= len(h.Params) {
+				continue
+			}
+			for _, hb := range h.Blocks {
+				for _, hi := range hb.Instrs {
+					if calleeNamed(hi, "combineProfiles") {
+						return h, h.Params[si], h.Params[bi]
+					}
+				}
+			}
+		}
+	}
+	return f, src, base
+}
+
 func (c *Check) baseWiring() {
 	p := c.P
-	f := c.anchorFn("C07-R1", "internal/driver", "fetchProfiles")
+	f, wsrc, wbase := c.wiringFunction("C07-R1")
 	if f == nil {
 		return
 	}
@@ -83,19 +151,12 @@ func (c *Check) baseWiring() {
 			}
 		}
 	}
-	if grab == nil || len(combine) != 1 {
-		c.undecided("C07-R1", "wiring", pos, "fetchProfiles no longer calls grabSourcesAndBases and combineProfiles once each")
+	_ = grab
+	if len(combine) != 1 {
+		c.undecided("C07-R1", "wiring", pos, "the function that combines source and base (fetchProfiles or its helper) does not call combineProfiles exactly once")
 		return
 	}
-	extract := func(i int) ssa.Value {
-		for _, r := range *grab.Referrers() {
-			if e, ok := r.(*ssa.Extract); ok && e.Index == i {
-				return e
-			}
-		}
-		return nil
-	}
-	src, base := extract(0), extract(1)
+	src, base := wsrc, wbase
 	if src == nil || base == nil {
 		c.undecided("C07-R1", "wiring", pos, "results of grabSourcesAndBases not found")
 		return
@@ -221,6 +282,29 @@ func errChecked(call *ssa.Call) bool {
 // loop(s) that add into it.
 func accumulatesFrom(f *ssa.Function, slice ssa.Value) map[*ssa.Parameter]bool {
 	out := map[*ssa.Parameter]bool{}
+	// the sums may be produced by a helper that is handed the sample list
+	if call, ok := slice.(*ssa.Call); ok && call.Call.StaticCallee() != nil && fnInModule(call.Call.StaticCallee()) {
+		for _, pr := range f.Params {
+			pr := pr
+			for _, a := range call.Call.Args {
+				if mustDependMem(a, func(v ssa.Value) bool {
+					ld, ok := v.(*ssa.UnOp)
+					if !ok || ld.Op != token.MUL {
+						return false
+					}
+					fa, ok := ld.X.(*ssa.FieldAddr)
+					if !ok || fa.X != ssa.Value(pr) {
+						return false
+					}
+					_, F := fieldOf(fa.X.Type(), fa.Field)
+					return F == "Sample"
+				}) {
+					out[pr] = true
+				}
+			}
+		}
+		return out
+	}
 	for _, b := range f.Blocks {
 		for _, ins := range b.Instrs {
 			st, ok := ins.(*ssa.Store)
